@@ -184,40 +184,34 @@ func c32Item(c c32Case) (types.WorkItem, types.WorkExecResult) {
 	return it, res
 }
 
-// which other quantity the observed value coincides with (diagnosis for the violation key)
+// which other quantity of the item the observed value coincides with (diagnosis for the violation key);
+// only an unambiguous coincidence is named (several quantities are often equal, e.g. all zero)
 func c32Diag(got uint64, ref c32RefDigest, self string) string {
-	cands := []struct {
-		name string
-		v    uint64
-	}{
-		{"imports", ref.Imports}, {"extrinsic-count", ref.ExtrCount}, {"extrinsic-size", ref.ExtrSize},
-		{"extrinsic-size-mod-2^16", ref.ExtrSize & 0xFFFF}, {"extrinsic-size-mod-2^32", ref.ExtrSize & 0xFFFFFFFF},
-		{"export-count", ref.ExportsCount}, {"gas-used", ref.GasUsed},
-	}
-	// only an unambiguous coincidence is named (several quantities are often equal, e.g. all zero)
-	match, seen := "", map[uint64]bool{}
-	n := 0
-	for _, c := range cands {
-		if c.name == self || c.v != got || (c.name != "extrinsic-size" && len(c.name) > 14 && c.name[:14] == "extrinsic-size" && c.v == ref.ExtrSize) {
-			continue
-		}
-		if !seen[c.v] {
-			n++
-		}
-		seen[c.v] = true
-		if match == "" {
-			match = c.name
-		} else {
-			n++
+	var m []string
+	add := func(name string, hit bool) {
+		if hit && name != self {
+			m = append(m, name)
 		}
 	}
+	add("imports", got == ref.Imports)
+	add("extrinsic-count", got == ref.ExtrCount)
 	switch {
-	case match == "":
-		return "got=other"
-	case n > 1:
-		return "got=ambiguous"
+	case got == ref.ExtrSize:
+		add("extrinsic-size", true)
+	case got == ref.ExtrSize&0xFFFFFFFF:
+		add("extrinsic-size-mod-2^32", true)
+	case got == ref.ExtrSize&0xFFFF:
+		add("extrinsic-size-mod-2^16", true)
 	}
-	return "got=" + match
+	add("export-count", got == ref.ExportsCount)
+	add("gas-used", got == ref.GasUsed)
+	switch len(m) {
+	case 0:
+		return "got=other"
+	case 1:
+		return "got=" + m[0]
+	}
+	return "got=ambiguous"
 }
 
 func c32CheckC(r *vlib.Run, c c32Case) {
